@@ -8,7 +8,7 @@ from ..core import guards
 from ..core import pyfacts as pf
 from ..core.defuse import is_identity
 from ..core.larkfacts import grammar_facts, symbols_str
-from ..core.match import phi_alts, txt
+from ..core.match import canon, phi_alts, txt
 from ..core.rx import Rx, includes, witness_not_in
 from ..core.source import AnchorMissing
 from .common import (DEC, DECGRAMMAR, accessor_sig, ckey, enclosing, fn, method_calls, post_replacement_grammar,
@@ -516,8 +516,8 @@ def c01_6(ctx, ss):
                 continue
             src = txt(flow.expand(lps[0].iter))
             names_src = "self.list_decay_mother_names()"
-            want_src = {f"__phi__(set(), {{__elem__({names_src}) for n in {names_src} if {names_src}.count(__elem__({names_src})) > 1}})",
-                        f"{{__elem__({names_src}) for n in {names_src} if {names_src}.count(__elem__({names_src})) > 1}}", f"set({names_src})", names_src}
+            want_src = {canon(f"__phi__(set(), {{__elem__({names_src}) for n in {names_src} if {names_src}.count(__elem__({names_src})) > 1}})"),
+                        canon(f"{{__elem__({names_src}) for n in {names_src} if {names_src}.count(__elem__({names_src})) > 1}}"), f"set({names_src})", names_src}
             conds = [(txt(flow.expand(e, keep={txt(lps[0].target)})), pol) for kind, e, pol in guards.path_conditions(lps[0], stmt_of(ff, x)) if kind == "if"]
             okg = conds in ([], [(f"{names_src}.count({txt(lps[0].target)}) > 1", True)])
             exits = any(isinstance(y, (ast.Break, ast.Continue)) for y in ast.walk(lps[0]))
